@@ -347,6 +347,21 @@ class G:
         self.kinds.append("split")
         return outs
 
+    def split_v(self, x, sizes, axis=3):
+        X = self.T(x)
+        nm = self.name("splitv")
+        assert sum(sizes) == X.shape[axis]
+        sz = self.const(nm + "_sz", (len(sizes),), "int32", list(sizes))
+        ax = self.const(nm + "_ax", (), "int32", axis)
+        outs = []
+        for i, n in enumerate(sizes):
+            shp = list(X.shape)
+            shp[axis] = n
+            outs.append(self.act("%s_o%d" % (nm, i), shp, X.scale[0], X.zp[0]).name)
+        self.net.add_o(BO.SPLIT_V, [x, sz.name, ax.name], outs, "SplitVOptions", dict(num_splits=len(sizes)), 2)
+        self.kinds.append("split_v")
+        return outs
+
     def strided_slice(self, x, begin, end, strides=None):
         X = self.T(x)
         nm = self.name("sslice")
@@ -460,7 +475,7 @@ def _rand_exact_op(g, x, allow_fc=False, big=False):
     r = g.rng
     X = g.T(x)
     _, h, w, c = X.shape
-    choice = r.choice(["conv", "conv", "dw", "maxpool", "add", "mul", "sub", "relu", "conv1", "addc", "min", "concat", "split", "reshape_rt", "pad_conv", "tconv", "transpose"])
+    choice = r.choice(["conv", "conv", "dw", "maxpool", "add", "mul", "sub", "relu", "conv1", "addc", "min", "concat", "split", "reshape_rt", "pad_conv", "tconv", "transpose", "split"])
     if choice == "transpose":
         if X.dtype.name == "int16":
             choice = "conv"
@@ -521,6 +536,25 @@ def _rand_exact_op(g, x, allow_fc=False, big=False):
     if choice == "concat":
         y = g.conv(x, int(r.choice([4, 8, 16, 5])), 1, 1, PAD_SAME, ACT_NONE, oscale=X.scale[0], ozp=X.zp[0])
         return g.concat([x, y] if r.integers(0, 2) else [y, x], 3)
+    if choice == "split" and c >= 6 and r.integers(0, 3):
+        # SPLIT_V into three or four parts of different sizes, each part processed, then joined again
+        nparts = int(r.choice([3, 3, 4])) if c >= 8 else 3
+        cuts = sorted(int(v) for v in r.choice(np.arange(1, c), nparts - 1, replace=False))
+        sizes = [b - a for a, b in zip([0] + cuts, cuts + [c])]
+        ax = 3 if r.integers(0, 3) else int(r.choice([1, 2]))
+        if ax != 3:
+            d = X.shape[ax]
+            if d < nparts:
+                ax = 3
+            else:
+                cuts = sorted(int(v) for v in r.choice(np.arange(1, d), nparts - 1, replace=False))
+                sizes = [b - a for a, b in zip([0] + cuts, cuts + [d])]
+        parts = g.split_v(x, sizes, ax)
+        outs_ = []
+        for p_ in parts:
+            q_ = g.pool(p_, "maxpool", 1, 1, PAD_SAME) if r.integers(0, 2) else g.unary("relu", p_)
+            outs_.append(q_)
+        return g.concat(outs_, ax)
     if choice == "split":
         if c % 2 == 0 and c >= 4:
             a, b = g.split(x, 2, 3)
@@ -735,7 +769,14 @@ def fam_shared_weights(seed):
     pc = bool(r.integers(0, 2))
     d0 = "int16" if r.random() < 0.3 else "int8"
     x = g.input([1, h, w, ic], dtype=d0)
-    y0 = g.conv(x, oc, k, 1, PAD_SAME, int(r.choice([0, 1])), per_channel=pc, kw=kw, bias64=bool(r.integers(0, 5)))
+    st = 1
+    if d0 == "int8" and r.integers(0, 3) == 0:
+        # shallow, strided first convolution: the optimiser reshapes IFM and filter of the first operator only; a later user of the same filter keeps it
+        ic, st, kw = int(r.choice([1, 2, 3, 4])), 2, int(r.choice([2, 2, 3]))
+        w = int(r.choice([4, 8, 12]))
+        g2 = None
+        x = g.input([1, h, w, ic], dtype=d0)
+    y0 = g.conv(x, oc, k, st, PAD_SAME, int(r.choice([0, 1])), per_channel=pc, kw=kw, bias64=bool(r.integers(0, 5)), stride_w=st)
     wname, bname = g.last_conv
     outs = [y0]
     for _ in range(int(r.integers(1, 4))):
@@ -747,11 +788,11 @@ def fam_shared_weights(seed):
             outs.append(g.tconv(x2, oc, k, int(r.choice([1, 2])), PAD_SAME, per_channel=pc, kw=kw, share_w=wname))
         elif mode == 0:  # same activation type, other scales, own bias
             x2 = g.input([1, h, w, ic], dtype=d0)
-            outs.append(g.conv(x2, oc, k, 1, PAD_SAME, int(r.choice([0, 1])), per_channel=pc, kw=kw, share_w=wname))
+            outs.append(g.conv(x2, oc, k, st, PAD_SAME, int(r.choice([0, 1])), per_channel=pc, kw=kw, share_w=wname, stride_w=st))
         elif mode == 1:  # same filter and the same bias: input with the same scale
             X = g.T(x)
             x2 = g.input([1, h, w, ic], scale=X.scale[0], dtype=d0)
-            outs.append(g.conv(x2, oc, k, 1, PAD_SAME, int(r.choice([0, 1])), per_channel=pc, kw=kw, share_w=wname, share_b=bname))
+            outs.append(g.conv(x2, oc, k, st, PAD_SAME, int(r.choice([0, 1])), per_channel=pc, kw=kw, share_w=wname, share_b=bname, stride_w=st))
         else:  # activations of the other width
             d1 = "int8" if d0 == "int16" else "int16"
             x2 = g.input([1, h, w, ic], dtype=d1)
@@ -829,6 +870,17 @@ def fam_cpu_mix(seed):
             a = g.unary("leaky_relu", x0, oscale=X0.scale[0], ozp=X0.zp[0])
         x = g.cpu_op(a, "floor_div", other=x0)
         n = int(r.integers(1, 4))
+    if r.integers(0, 5) == 0:
+        # a tensor produced on the accelerator and read by two or three operators that fall back to the CPU
+        y = g.conv(x, int(r.choice([4, 8])), 1, 1, PAD_SAME, int(r.choice([0, 1]))) if r.integers(0, 2) else g.unary("relu", x)
+        kinds_ = [str(k_) for k_ in r.permutation(["neg", "custom", "reverse", "dequantize"])[: int(r.integers(2, 4))]]
+        cpu_outs = [g.cpu_op(y, k_) for k_ in kinds_]
+        outs += [o_ for o_, k_ in zip(cpu_outs, kinds_) if k_ == "dequantize"][:1]
+        keep = [o_ for o_, k_ in zip(cpu_outs, kinds_) if k_ != "dequantize"]
+        outs += keep[1:]
+        x = keep[0] if keep else y
+        if r.integers(0, 2):
+            x = g.eltwise("add", x, y) if g.T(x).shape == g.T(y).shape and g.T(x).dtype == g.T(y).dtype else x
     if r.integers(0, 5) == 0 and len(g.T(x).shape) == 4:
         # a CPU-resident memory-only operator (RESHAPE whose shape is only known at run time) right next to accelerated operators
         if r.integers(0, 2):
@@ -901,6 +953,20 @@ def fam_stripe_resize(seed):
     return g.finish([x], "stripe-resize", "approx-mid", None)
 
 
+def fam_mixed_width(seed):
+    """16-bit activations narrowed to 8 bits in the middle of a tall chain of convolutions: under memory pressure the narrowing operator sits inside a
+    cascade, where buffers are sized per operator from element widths"""
+    r = rng_for("mixed-width", seed)
+    g = G(r, "int8")
+    h, w, c = int(r.choice([32, 48, 64])), int(r.choice([16, 32, 64])), int(r.choice([4, 8]))
+    x = g.input([1, h, w, c], dtype="int16")
+    x = g.conv(x, int(r.choice([16, 32, 64])), 3, 1, PAD_SAME, int(r.choice([0, 1])))
+    x = g.unary("quantize", x, g.rscale(0.01, 0.1), g.rzp("int8"))
+    for _ in range(int(r.integers(2, 4))):
+        x = g.conv(x, int(r.choice([8, 16, 32])), int(r.choice([1, 3, 3])), 1, PAD_SAME, int(r.choice([0, 1])))
+    return g.finish([x], "mixed-width", "exact")
+
+
 def fam_tiny(seed):
     """single-operator networks: nothing is weight-buffered, cascaded or (on dedicated-SRAM systems) placed in SRAM at all"""
     r = rng_for("tiny", seed)
@@ -937,6 +1003,7 @@ FAMILIES = {
     "shared-weights": fam_shared_weights,
     "tiny": fam_tiny,
     "stripe-resize": fam_stripe_resize,
+    "mixed-width": fam_mixed_width,
 }
 
 
